@@ -158,6 +158,20 @@ CHECKS["C12"] = dict(
     technique="deterministic simulation with fault injection: crash / store-error placement at individual store operations + restart, uniqueness and durable-coverage oracles over the values used",
 )
 
+CHECKS["C03"] = dict(
+    level="exploration",
+    text="mrp world with 2-3 real stacks and planted PASE / CASE sessions (session ids coinciding across peers and directions in part of the runs), scripted "
+         "exchanges with payloads from 0 bytes to the maximum; an on-path adversary accompanies 15-60 % of the secured datagrams with a crafted variant: bit "
+         "flip in the plain header / body / tag, truncation, extension, session id or counter transplanted from another live datagram, header spliced on a "
+         "foreign body, a foreign datagram, reflection to the sender (opposite direction), redirection to a third node, forged source address, delivered "
+         "before or after the genuine one. Oracles: every such datagram gets a transport verdict of 'not authentic / no session' and makes no session "
+         "classify a counter (receive window untouched, no exchange created); applications only ever receive content their true peer submitted on that "
+         "exchange, step and direction; every genuine datagram decodes under the session keys with the harness's independent AES-CCM codec to exactly what "
+         "the peer's exchange received; session keys at the end are the established ones. Limit: group sessions are not exercised.",
+    design="DESIGN.md §4 C03",
+    technique="deterministic simulation with fault injection: seeded search over traffic x per-datagram forgery (corruption, transplant, reflection, misrouting) x schedules; transport-verdict and application-history oracles",
+)
+
 CHECKS["C01"] = dict(
     level="exploration",
     text="Real device commissioned by controller X; the device is crashed/restarted 2-5 times so that X runs new CASE handshakes (resumption first, "
